@@ -10,10 +10,12 @@
    and never give characters back; !e consumes nothing.  These rules are all inside the
    compound-atomic `expression`, so no implicit whitespace is skipped. *)
 From Coq Require Import String Ascii List Bool Arith.
+Require Import Blots.Num Blots.gen.Builtins Blots.Ast Blots.PrattTypes.
 Import ListNotations.
 Local Open Scope string_scope.
 
 Inductive atom_alt := ABool | ANull | AIdent.
+Inductive postfix_alt := PFactorial | PAccess | PCall | PDot.
 
 Definition is_alpha (c : ascii) : bool :=
   let n := nat_of_ascii c in
@@ -115,3 +117,95 @@ Definition is_reserved (reserved : list string) (s : string) : bool := existsb (
 (* the class of the open known finding C10-bool-null-prefix *)
 Definition known_C10 (s : string) : bool :=
   negb (fails (lit "true" s)) || negb (fails (lit "false" s)) || negb (fails (lit "null" s)).
+
+(* ------------------------------------------------------------------ what follows an operand
+   expression = ${ prefix_usage* ~ term ~ postfix_op* ~ (infix_usage ~ ...)* }: after a term, the
+   greedy postfix_op* runs first (factorial | access | call_list | dot_access in the GENERATED order),
+   then the symbol alternative of infix_usage: (WHITESPACE | NEWLINE)* ~ infix_op ~ (WHITESPACE | NEWLINE)*
+   with infix_op the GENERATED ordered choice.  Only what a symbol operator can run into is
+   modelled: `[` and `(` (access / call_list) end the model with AfterUnmodelled, inline comments
+   inside NEWLINE are not modelled (blanks and plain newlines are). *)
+Inductive after_operand :=
+| AfterOp (factorials : nat) (dots : nat) (r : oprule) (rest : string)
+| AfterNothing (factorials : nat) (dots : nat) (rest : string)      (* no infix operator: the expression ends *)
+| AfterUnmodelled.
+
+Definition is_blank (c : ascii) : bool :=
+  let n := nat_of_ascii c in Nat.eqb n 32 || Nat.eqb n 9 || Nat.eqb n 10 || Nat.eqb n 13.
+
+Section AfterOperand.
+  Variable reserved : list string.
+  Variable guard : nat.                       (* form of `factorial`, see gen/IdentRules.v *)
+  Variable order : list postfix_alt.
+  Variable ops : list (oprule * string).
+
+  Definition factorial_rule (s : string) : option string :=
+    match lit "!" s with
+    | Some r =>
+        match guard with
+        | 0 => Some r
+        | 1 => if fails (lit "=" r) then Some r else None
+        | _ => match lit "=" r with
+               | Some r2 => if fails (lit "=" r2) then None else Some r
+               | None => Some r
+               end
+        end
+    | None => None
+    end.
+  Definition dot_access_rule (s : string) : option string :=
+    match lit "." s with Some r => identifier reserved r | None => None end.
+
+  (* one postfix_op: Some (alternative, rest) *)
+  Fixpoint postfix_one (alts : list postfix_alt) (s : string) : option (postfix_alt * string) :=
+    match alts with
+    | [] => None
+    | a :: alts' =>
+        match (match a with
+               | PFactorial => factorial_rule s
+               | PDot => dot_access_rule s
+               | PAccess => lit "[" s
+               | PCall => lit "(" s
+               end) with
+        | Some r => Some (a, r)
+        | None => postfix_one alts' s
+        end
+    end.
+  Fixpoint infix_sym (l : list (oprule * string)) (s : string) : option (oprule * string) :=
+    match l with
+    | [] => None
+    | (r, w) :: l' => match lit w s with Some rest => Some (r, rest) | None => infix_sym l' s end
+    end.
+
+  Fixpoint after_term (fuel : nat) (nf nd : nat) (s : string) : after_operand :=
+    match fuel with
+    | O => AfterUnmodelled
+    | S f =>
+        match postfix_one order s with
+        | Some (PFactorial, r) => after_term f (S nf) nd r
+        | Some (PDot, r) => after_term f nf (S nd) r
+        | Some (_, _) => AfterUnmodelled
+        | None =>
+            match infix_sym ops (star_class is_blank s) with
+            | Some (r, rest) => AfterOp nf nd r (star_class is_blank rest)
+            | None => AfterNothing nf nd s
+            end
+        end
+    end.
+  Definition after_operand_lex (s : string) : after_operand := after_term (S (String.length s)) 0 0 s.
+End AfterOperand.
+
+Definition show_after (a : after_operand) : string :=
+  match a with
+  | AfterOp nf nd r rest =>
+      "OP:" ++ String (ascii_of_nat (48 + nf)) (String (ascii_of_nat (48 + nd)) ":") ++
+      (match r with
+       | R_add => "Add" | R_subtract => "Subtract" | R_multiply => "Multiply" | R_divide => "Divide"
+       | R_modulo => "Modulo" | R_power => "Power" | R_equal => "Equal" | R_not_equal => "NotEqual"
+       | R_less => "Less" | R_less_eq => "LessEq" | R_greater => "Greater" | R_greater_eq => "GreaterEq"
+       | R_dot_equal => "DotEqual" | R_dot_not_equal => "DotNotEqual" | R_dot_less => "DotLess"
+       | R_dot_less_eq => "DotLessEq" | R_dot_greater => "DotGreater" | R_dot_greater_eq => "DotGreaterEq"
+       | R_and => "And" | R_or => "Or" | R_coalesce => "Coalesce" | _ => "?"
+       end) ++ ":" ++ rest
+  | AfterNothing nf nd rest => "END:" ++ String (ascii_of_nat (48 + nf)) (String (ascii_of_nat (48 + nd)) ":") ++ rest
+  | AfterUnmodelled => "UNMODELLED"
+  end.
